@@ -39,6 +39,8 @@ def run_cfg(src, cfg=None, timeout=8):
                 engine = DefaultEngine(**eng_kw)
             else:
                 engine = None
+            if cfg.get("history"):
+                return run_history(src, cfg["history"], engine or DefaultEngine())
             gkw = dict(cfg.get("ground") or {})
             if isinstance(gkw.get("propagate_weights"), str):
                 gkw["propagate_weights"] = {"prob": SemiringProbability(), "log": SemiringLogProbability()}[gkw["propagate_weights"]]
@@ -53,9 +55,14 @@ def run_cfg(src, cfg=None, timeout=8):
                 ev = LogicNNF
             else:
                 ev = get_evaluatable()
-            sr = {"prob": SemiringProbability(), "log": SemiringLogProbability(), None: None}[cfg.get("semiring")]
+            srn = cfg.get("semiring")
+            sr = make_semiring(srn)
+            if kc == "auto":
+                ev = get_evaluatable(None, semiring=sr)
             kb = ev.create_from(lf)
             r = kb.evaluate(semiring=sr) if sr is not None else kb.evaluate()
+            if srn == "symbolic":
+                return {str(k): float(eval_symbolic(v)) for k, v in r.items()}
             return {str(k): v for k, v in r.items()}
         finally:
             if hasattr(es, "_verif_set_schedule"):
@@ -68,6 +75,138 @@ def run_cfg(src, cfg=None, timeout=8):
         return ("error", ("run", "RecursionError", site_of(e)))
     except Exception as e:
         return ("error", ("run", type(e).__name__, site_of(e)))
+
+
+def run_history(src, h, engine):
+    """Grounding histories (C08). src = clauses only. h = {mode, seed, queries: [atom text], evidence: [(atom text, bool)]}.
+
+    mode "shared_target": all queries and evidence atoms are grounded one by one, in a seeded random order, into ONE
+    target formula (engine.ground(db, term, target=target, label=...)); then the target is evaluated.
+    mode "shared_db": one prepared database and one engine object serve a sequence of independent groundings, one per
+    query (evidence first), each into a fresh target; the answers are collected.
+    mode "ground_all": engine.ground_all(db, queries=..., evidence=...) with shuffled lists."""
+    import random
+    from problog.program import PrologString
+    from problog.logic import Term
+    from problog import get_evaluatable
+    rng = random.Random(h["seed"])
+    db = engine.prepare(PrologString(src))
+    def mkterm(txt):
+        # anonymous variables are given distinct names: Term.from_string maps every `_` to the same Var('_')
+        n = [0]
+
+        def fresh(m):
+            n[0] += 1
+            return "%sV%d%s" % (m.group(1), n[0], m.group(2))
+        import re
+        prev = None
+        while prev != txt:
+            prev = txt
+            txt = re.sub(r"([(,])_([,)])", fresh, txt, count=1)
+        return Term.from_string(txt)
+    qs = [mkterm(q) for q in h["queries"]]
+    evs = [(Term.from_string(a), v) for a, v in h["evidence"]]
+    if h["mode"] == "shared_target":
+        items = [("q", q, None) for q in qs] + [("e", a, v) for a, v in evs]
+        rng.shuffle(items)
+        target = None
+        for kind, t, v in items:
+            label = "query" if kind == "q" else ("evidence+" if v else "evidence-")
+            target = engine.ground(db, t, target=target, label=label)
+        r = get_evaluatable().create_from(target).evaluate()
+        return {str(k): v for k, v in r.items()}
+    if h["mode"] == "ground_all":
+        rng.shuffle(qs)
+        rng.shuffle(evs)
+        target = engine.ground_all(db, queries=qs, evidence=[(a, v) for a, v in evs])
+        r = get_evaluatable().create_from(target).evaluate()
+        return {str(k): v for k, v in r.items()}
+    out = {}
+    order = list(qs)
+    rng.shuffle(order)
+    for q in order:
+        target = None
+        for a, v in evs:
+            target = engine.ground(db, a, target=target, label="evidence+" if v else "evidence-")
+        target = engine.ground(db, q, target=target, label="query")
+        r = get_evaluatable().create_from(target).evaluate()
+        out.update({str(k): v for k, v in r.items()})
+    return out
+
+
+def make_semiring(name):
+    """prob | log | custom (a user-defined copy of the probability semiring, declared DSP like the original) |
+    nsp (its neutral-sum variant) | symbolic."""
+    from problog.evaluator import Semiring, SemiringProbability, SemiringLogProbability, SemiringSymbolic
+    if name is None:
+        return None
+    if name == "prob":
+        return SemiringProbability()
+    if name == "log":
+        return SemiringLogProbability()
+    if name == "symbolic":
+        return SemiringSymbolic()
+
+    class UserProb(Semiring):
+        def one(self):
+            return 1.0
+
+        def zero(self):
+            return 0.0
+
+        def is_one(self, value):
+            return 1.0 - 1e-12 < value < 1.0 + 1e-12
+
+        def is_zero(self, value):
+            return -1e-12 < value < 1e-12
+
+        def plus(self, a, b):
+            return a + b
+
+        def times(self, a, b):
+            return a * b
+
+        def negate(self, a):
+            return 1.0 - a
+
+        def normalize(self, a, z):
+            return a / z
+
+        def value(self, a):
+            return float(a)
+
+        def is_dsp(self):
+            return True     # a probability semiring is a disjoint-sum-problem semiring
+
+        def is_nsp(self):
+            return name == "nsp"
+    return UserProb()
+
+
+def eval_symbolic(expr):
+    """Exact value of an expression emitted by SemiringSymbolic: decimal literals, + - * /, parentheses."""
+    import ast
+    from fractions import Fraction
+
+    def ev(n):
+        if isinstance(n, ast.Expression):
+            return ev(n.body)
+        if isinstance(n, ast.Constant):
+            return Fraction(repr(n.value)) if isinstance(n.value, float) else Fraction(n.value)
+        if isinstance(n, ast.BinOp):
+            a, b = ev(n.left), ev(n.right)
+            if isinstance(n.op, ast.Add):
+                return a + b
+            if isinstance(n.op, ast.Sub):
+                return a - b
+            if isinstance(n.op, ast.Mult):
+                return a * b
+            if isinstance(n.op, ast.Div):
+                return a / b
+        if isinstance(n, ast.UnaryOp) and isinstance(n.op, ast.USub):
+            return -ev(n.operand)
+        raise ValueError("unexpected symbolic expression: %r" % expr)
+    return ev(ast.parse(str(expr), mode="eval"))
 
 
 def make_random_order_engine(seed, **kw):
